@@ -77,6 +77,7 @@ type Hist struct {
 	FinalizeInSync     int // upload finalised while S was parked in the data sync
 	FinalizeInWrite    int // ... while a syncer was parked in the state write
 	ReleaseInSync      int
+	InflightAtShutdown int
 }
 
 // NewHist creates a history driver.
@@ -402,6 +403,9 @@ func (h *Hist) Actions() map[string]func(*rapid.T) {
 					return
 				}
 				c.Add("shutdown")
+				if !w.ShutdownRequested() {
+					h.InflightAtShutdown = len(w.Inflight())
+				}
 				w.Shutdown()
 			}
 		}
